@@ -40,6 +40,11 @@ CODES = {1: "model and implementation differ: one raises / returns a malformed t
          6: "a loopless range is not inside the plain range",
          7: "a loopless range is wider than the true range over loop-free flux distributions (a reported extreme is "
             "only attained with an internal cycle)",
+         13: "a loopless range is wider than the true loop-free range on a network where the unchanged heuristic provably "
+             "cannot be (no internal cycle, or a single internal cycle whose reactions have 0 inside their bounds and "
+             "along which the objective is constant)",
+         14: "a loopless range is narrower than the true loop-free range for a reaction where the unchanged heuristic "
+             "provably cannot be (as 13, and the reaction is a boundary reaction or not on the cycle)",
          12: "a loopless range is narrower than the true range over loop-free flux distributions (a loop-free "
              "distribution is cut off)",
          8: "flux_variability_analysis raises although the model is feasible and the admitted set is non-empty "
@@ -233,6 +238,95 @@ def loopfree_ranges(net, bound, ids):
     return out
 
 
+def internal_nullspace(net):
+    """exact basis of the null space of the internal stoichiometry (vectors over internal_idx(net))"""
+    internal = internal_idx(net)
+    idx = {m: i for i, m in enumerate(net["mets"])}
+    a = [[ZERO] * len(internal) for _ in net["mets"]]
+    for k, i in enumerate(internal):
+        for met, v in net["rxns"][i]["st"].items():
+            a[idx[met]][k] = F(v)
+    piv, r = [], 0
+    for col in range(len(internal)):
+        p = next((i for i in range(r, len(a)) if a[i][col] != 0), None)
+        if p is None:
+            continue
+        a[r], a[p] = a[p], a[r]
+        a[r] = [v / a[r][col] for v in a[r]]
+        for i in range(len(a)):
+            if i != r and a[i][col] != 0:
+                f = a[i][col]
+                a[i] = [v - f * w for v, w in zip(a[i], a[r])]
+        piv.append(col)
+        r += 1
+    free = [c for c in range(len(internal)) if c not in piv]
+    basis = []
+    for fcol in free:
+        z = [ZERO] * len(internal)
+        z[fcol] = F(1)
+        for row, pc in zip(a, piv):
+            z[pc] = -row[fcol]
+        basis.append(z)
+    return internal, basis
+
+
+def strict_flags(net, ids):
+    """Per requested reaction (cannot_be_wider, cannot_be_narrower): structural classes in which the UNCHANGED
+    loopless_fva_iter is provably exact on that side (argument in docs/C05.md):
+      * no internal cycle at all: the cycle-free LP has the single point it started from -> plain = loop-free = reported;
+      * exactly one internal cycle z0 (null space of dimension 1), every reaction on it has 0 inside its bounds and the
+        objective does not change along it (c.z0 = 0): removing the cycle stays inside the admitted set, so the cycle-free
+        solution is loop-free and a value returned by the first two branches is attained loop-free; the third branch closes
+        a reaction of the cycle, after which every feasible point is loop-free -> never wider; boundary reactions and
+        reactions off the cycle keep their flux under cycle removal -> exact on both sides."""
+    internal, basis = internal_nullspace(net)
+    if not basis:
+        return [(True, True)] * len(ids), "acyclic"
+    if len(basis) > 1:
+        return [(False, False)] * len(ids), "many-cycles"
+    z0 = dict(zip(internal, basis[0]))
+    for i, z in z0.items():
+        if z != 0:
+            lb, ub = gennet.num(net["rxns"][i]["lb"]), gennet.num(net["rxns"][i]["ub"])
+            if (lb is not None and lb > 0) or (ub is not None and ub < 0):
+                return [(False, False)] * len(ids), "one-cycle-forced"
+    if sum((F(net["rxns"][i]["obj"]) * z for i, z in z0.items()), ZERO) != 0:
+        return [(False, False)] * len(ids), "one-cycle-objective"
+    return [(True, z0.get(j, ZERO) == 0) for j in ids], "one-cycle"
+
+
+def one_cycle_network(rng, max_int):
+    """a network of the class "one-cycle" above, with a mostly reversible, wide cycle"""
+    for _ in range(200):
+        net = gennet.gen_network(rng, finite_only=True, forced_p=0.0, max_rxns=8)
+        internal, basis = internal_nullspace(net)
+        if len(basis) != 1 or len(internal) > max_int:
+            continue
+        z0 = dict(zip(internal, basis[0]))
+        wide = rng.random() < 0.7
+        for i, z in z0.items():
+            if z == 0:
+                continue
+            r = net["rxns"][i]
+            r["obj"] = "0"
+            lb, ub = gennet.num(r["lb"]), gennet.num(r["ub"])
+            if wide:
+                r["lb"], r["ub"] = rng.choice([("-1000", "1000"), ("-1000", "1000"), ("-10", "1000"), ("-1000", "5")])
+            else:
+                if lb > 0:
+                    r["lb"] = "0"
+                if ub < 0:
+                    r["ub"] = "0"
+        if all(F(r["obj"]) == 0 for r in net["rxns"]):
+            cand = [r for i, r in enumerate(net["rxns"]) if z0.get(i, ZERO) == 0]
+            if not cand:
+                continue
+            rng.choice(cand)["obj"] = "1"
+        if strict_flags(net, [0])[1] == "one-cycle":
+            return net
+    return None
+
+
 # ------------------------------------------------------------------ cases
 def qf(x):
     if x is None or (isinstance(x, float) and (math.isnan(x) or math.isinf(x))):
@@ -253,7 +347,11 @@ def gen_cases(rng, tier):
         tries += 1
         k = len(cases)
         loopless = k % 5 == 4
-        if loopless:
+        if loopless and k % 10 == 9:
+            net = one_cycle_network(rng, n_ll_max)
+            if net is None:
+                continue
+        elif loopless:
             net = gennet.gen_network(rng, finite_only=True, forced_p=0.0, max_rxns=8)
             if len(internal_idx(net)) > n_ll_max or not internal_idx(net):
                 continue
@@ -370,6 +468,7 @@ def case_term(case):
     ll = "None"
     obs_ll = None
     ll_empty = 0
+    ll_class = "-"
     if case["loopless"] and not pf_infeasible and n_unb == 0:
         m2 = gennet.to_cobra(net, case["solver"])
         impl_ll, obs_ll, _ = run_fva(m2, case, True)
@@ -377,8 +476,11 @@ def case_term(case):
         if ex is None:
             ex = [None] * len(ids)
         ll_empty = sum(1 for e in ex if e is None)
+        flags, ll_class = strict_flags(net, ids)
         ll = "(Some (%s, [%s]))" % (impl_ll, "; ".join(
-            "None" if e is None else "(Some (%s, %s))" % (gennet.q(e[0]), gennet.q(e[1])) for e in ex))
+            "(%s, (%s, %s))" % ("None" if e is None else "Some (%s, %s)" % (gennet.q(e[0]), gennet.q(e[1])),
+                               "true" if fl[0] else "false", "true" if fl[1] else "false")
+            for e, fl in zip(ex, flags)))
     term = "(mkC05 %s (%s, %s) %s %s [%s] [%s] %s %s [%s] %s)" % (
         gennet.coq_net(net), vec(x), vec(y), gennet.q(frac), pterm,
         "; ".join("%d%%nat" % j for j in ids), "; ".join(certs), impl, "true" if index_ok else "false",
@@ -391,7 +493,7 @@ def case_term(case):
                             "processes": case["processes"], "objects": case["objects"],
                             "n_requested": len(ids), "optimum_sign": "neg" if opt < 0 else ("zero" if opt == 0 else "pos"),
                             "unbounded_ranges": n_unb > 0, "pfba_step_infeasible": pf_infeasible,
-                            "loopfree_scope_empty": ll_empty > 0, "outcome": impl.split(" ")[0].strip("(")}}
+                            "loopfree_scope_empty": ll_empty > 0, "loopless_structure": ll_class, "outcome": impl.split(" ")[0].strip("(")}}
 
 
 def has_internal_cycle(net):
